@@ -38,6 +38,7 @@ type c08m struct {
 	vec reflect.Value // *Vector
 	// the wire: what the last encoder returned (fed back by decoders flagged rt)
 	wBytes []byte
+	wKept  []byte // the very slice MarshalBinary returned (not a copy): it belongs to the caller from then on
 	wText  string
 	wInt   *big.Int
 	wKind  string
@@ -401,7 +402,7 @@ func (m *c08m) vload(raws []*big.Int) {
 	m.t.Emit(Ev{"op": "VLoad", "v": rawList(raws)})
 }
 
-func (m *c08m) vWrite(op string) { // VWriteTo, VMarshalBinary
+func (m *c08m) vWrite(op string) { // VWriteTo, VMarshalBinary, VMarshalBinaryDiscard (the wire of the specification stays)
 	e := Ev{"op": op}
 	if op == "VWriteTo" {
 		var buf bytes.Buffer
@@ -425,7 +426,10 @@ func (m *c08m) vWrite(op string) { // VWriteTo, VMarshalBinary
 			if es, ok := c08errString(out[1]); ok {
 				e["err"] = es
 			}
-			m.wBytes, m.wKind = append([]byte{}, out[0].Bytes()...), "Vec"
+			if op == "VMarshalBinary" {
+				m.wKept = out[0].Bytes()
+				m.wBytes, m.wKind = append([]byte{}, m.wKept...), "Vec"
+			}
 		}
 	}
 	e["vafter"] = m.vraw()
@@ -1209,6 +1213,16 @@ func (m *c08m) vectors(pool []*big.Int, lens []int, bigLens []int) {
 		m.vload(m.rawsOf(vals))
 		m.vWrite("VMarshalBinary")
 		m.readAll(m.wBytes, -1, true)
+		// a round trip with other encodings produced in between: the bytes handed back belong to the caller, so the
+		// slice kept from the first call (not a copy) still decodes to the first vector
+		m.vload(m.rawsOf(vals))
+		m.vWrite("VMarshalBinary")
+		kept := m.wKept
+		for _, k := range []int{n, n + 1} {
+			m.vload(m.rawsOf(m.pick(pool, k)))
+			m.vWrite("VMarshalBinaryDiscard")
+		}
+		m.readAll(kept, -1, true)
 		m.vload(m.rawsOf(vals))
 		m.vText("VString")
 		m.vText("VJSONMarshal")
